@@ -277,6 +277,13 @@ public:
 		return *this;
 	}
 
+	template <class TBase>
+	FieldsCountVisitor& operator<<(BaseObject<TBase>& value) noexcept
+	{
+		Count(value.Object);
+		return *this;
+	}
+
 private:
 	size_t Size = 0;
 	const TArchive& Archive;
